@@ -10,3 +10,17 @@ def py_max(s: "seq[int]", k: "int", d: "int") -> "int":
         return s[0]
     m = py_max(s, k - 1, d)
     return s[k - 1] if s[k - 1] > m else m
+
+
+def flat_pairs(xss: "seq[seq[tuple[ref,ref]]]", n: "int") -> "seq[tuple[ref,ref]]":
+    """[x for xs in xss[0:n] for x in xs] for lists of pairs: concatenation of the first n inner lists, in order"""
+    if n <= 0:
+        return []
+    return flat_pairs(xss, n - 1) + xss[n - 1]
+
+
+def flat_refs(xss: "seq[seq[ref]]", n: "int") -> "seq[ref]":
+    """[x for xs in xss[0:n] for x in xs] for lists of objects"""
+    if n <= 0:
+        return []
+    return flat_refs(xss, n - 1) + xss[n - 1]
